@@ -1,4 +1,2 @@
-CONSTANTS
-  MaxSteps = 400
 SPECIFICATION Spec
 CHECK_DEADLOCK FALSE
